@@ -2152,7 +2152,11 @@ class SequenceOfAndSetOfBase(base.ConstructedAsn1Type):
             return False
 
         if self._componentValues is noValue:
-            return True
+            # a schema object is no value of a constrained type (the
+            # callers raise what they get)
+            return error.PyAsn1Error(
+                '%s schema object has no value to check against its '
+                'constraints' % self.__class__.__name__)
 
         mapping = {}
 
@@ -2882,7 +2886,11 @@ class SequenceAndSetBase(base.ConstructedAsn1Type):
             return False
 
         if self._componentValues is noValue:
-            return True
+            # a schema object is no value of a constrained type (the
+            # callers raise what they get)
+            return error.PyAsn1Error(
+                '%s schema object has no value to check against its '
+                'constraints' % self.__class__.__name__)
 
         mapping = {}
 
